@@ -589,7 +589,19 @@ Qed.
 
 Lemma flush_runs_nil tags acc : flush_runs [] tags acc = acc. Proof. reflexivity. Qed.
 
-Definition rtag_ok (t : vtag) : bool := tag_ok t && negb (str_eqb (vt_name t) n_v).
+(* ---- the domain on which the tokenizer model is faithful to golang.org/x/net/html, as conditions on the value written
+   (Kit/Html.v [html_simple], Model/Vtt.v [vtt_line_simple]): the element name the HTML tokenizer sees (tag name with
+   its dotted classes, lower-cased) is not one of its raw-text elements (script, style, title, textarea, xmp, iframe,
+   noembed, noframes, noscript, plaintext: after such a start tag the real tokenizer reads everything up to the
+   matching end tag -- for plaintext, up to the end of the line -- as ONE text token, the model does not); an annotation
+   has no '&' (the real tokenizer decodes character references inside attribute values) and no CR; no NUL byte. ---- *)
+Definition okc (c : N) : bool := negb (c =? 38) && negb (c =? 13).
+Definition nonul (s : str) : bool := negb (existsb (N.eqb 0) s).
+Definition tag_html_ok (t : vtag) : bool :=
+  negb (existsb (str_eqb (to_lower (vt_name t ++ cls_part (vt_classes t)))) raw_text_tags) && forallb okc (vt_annot t).
+Definition tag_nonul (t : vtag) : bool := nonul (vt_name t) && forallb nonul (vt_classes t) && nonul (vt_annot t).
+(* a tag of a run: well-formed, not the voice tag, inside the faithful domain *)
+Definition rtag_ok (t : vtag) : bool := tag_ok t && negb (str_eqb (vt_name t) n_v) && tag_html_ok t && tag_nonul t.
 
 Lemma Run_opens ts : forall s cur tags voice acc res, ts <> [] -> forallb rtag_ok ts = true ->
   Run s [] (tags ++ ts) voice (flush_runs cur tags acc) res ->
@@ -597,7 +609,8 @@ Lemma Run_opens ts : forall s cur tags voice acc res, ts <> [] -> forallb rtag_o
 Proof.
   induction ts as [|t ts IH]; intros s cur tags voice acc res Hne Hok H; [contradiction|].
   cbn [forallb] in Hok. apply andb_true_iff in Hok. destruct Hok as [Ht Hts].
-  unfold rtag_ok in Ht. apply andb_true_iff in Ht. destruct Ht as [Ht Hv]. apply negb_true_iff in Hv.
+  unfold rtag_ok in Ht. apply andb_true_iff in Ht. destruct Ht as [Ht _]. apply andb_true_iff in Ht. destruct Ht as [Ht _].
+  apply andb_true_iff in Ht. destruct Ht as [Ht Hv]. apply negb_true_iff in Hv.
   cbn [map concat]. rewrite <- app_assoc. apply Run_tag; [exact Ht|]. rewrite Hv.
   destruct ts as [|t2 ts2].
   - exact H.
@@ -704,7 +717,8 @@ Definition run_ok (r : vrun) : bool :=
   match vr_text r with [] => false | _ => true end &&
   (0 <=? vr_time r)%Z && (vr_time r <=? max_int64)%Z &&
   (negb (timed r) || nonblank r) &&
-  forallb rtag_ok (run_tags r).
+  forallb rtag_ok (run_tags r) &&
+  nonul (vr_text r).
 (* no tag is written between two adjacent runs: both end up in one text token *)
 Definition same_stack (a b : vrun) : bool :=
   Nat.eqb (common_prefix (run_tags a) (run_tags b)) (length (run_tags a)) &&
@@ -715,7 +729,9 @@ Fixpoint chain_ok (prev : option vrun) (rs : list vrun) : bool :=
   | [] => true
   | r :: rest => run_ok r && (match prev with Some p => pair_ok p r | None => true end) && chain_ok (Some r) rest
   end.
-Definition repr_vline (l : vline) : bool := annot_ok (vl_voice l) && chain_ok None (vl_runs l).
+(* a voice name: an annotation (of the <v> tag) inside the faithful domain of the tokenizer model: no '&', CR, NUL *)
+Definition voice_ok (v : str) : bool := annot_ok v && forallb okc v && nonul v.
+Definition repr_vline (l : vline) : bool := voice_ok (vl_voice l) && chain_ok None (vl_runs l).
 
 (* what the reader returns for a run *)
 Definition nrun (r : vrun) : vrun := mkVrun (vr_text r) (sty (run_tags r)) (trunc_ms (vr_time r)) None.
@@ -862,7 +878,9 @@ Lemma forallb_impl' {A} (p q : A -> bool) s : (forall c, p c = true -> q c = tru
 Proof. intros I H. rewrite forallb_forall in *. intros c Hc. apply I, H, Hc. Qed.
 
 Lemma rtag_ok_tag_ok t : rtag_ok t = true -> tag_ok t = true.
-Proof. unfold rtag_ok. intros H. apply andb_true_iff in H. tauto. Qed.
+Proof. unfold rtag_ok. intros H. rewrite !andb_true_iff in H. tauto. Qed.
+Lemma rtag_ok_html t : rtag_ok t = true -> tag_html_ok t = true /\ tag_nonul t = true.
+Proof. unfold rtag_ok. intros H. rewrite !andb_true_iff in H. tauto. Qed.
 Lemma rtag_ok_name t : rtag_ok t = true -> tag_name_ok (vt_name t) = true.
 Proof. intros H. apply rtag_ok_tag_ok in H. apply tag_ok_parts in H. tauto. Qed.
 
@@ -1065,10 +1083,13 @@ Lemma vline_bytes_removelast l :
   removelast (vline_bytes l) = (match vl_voice l with [] => [] | v => [60;118;32] ++ v ++ [62] end) ++ vruns_bytes None (vl_runs l).
 Proof. unfold vline_bytes. rewrite app_assoc. apply removelast_last. Qed.
 
+Lemma voice_ok_annot v : voice_ok v = true -> annot_ok v = true.
+Proof. unfold voice_ok. intros H. rewrite !andb_true_iff in H. tauto. Qed.
+
 Theorem parse_vline l : repr_vline l = true ->
   parse_text_vtt (removelast (vline_bytes l)) [] = (nline l, []).
 Proof.
-  intros H. unfold repr_vline in H. apply andb_true_iff in H. destruct H as [Hv Hc].
+  intros H. unfold repr_vline in H. apply andb_true_iff in H. destruct H as [Hv Hc]. apply voice_ok_annot in Hv.
   rewrite vline_bytes_removelast. unfold parse_text_vtt, tokenize, nline.
   pose proof (runs_sem (vl_runs l) None [] [] (vl_voice l) I Hc (or_introl eq_refl)) as R.
   cbn [otags bodies map concat rev app] in R. rewrite common_prefix_nil_l in R. cbn [firstn] in R.
